@@ -34,11 +34,272 @@ package ir
 //@ func NewTrunc
 //@   props C03
 //@   requires from != nil && to != nil && truncOK(vtype(from), to)
+//@   assigns caches
 //@   ensures result != nil && fresh(result) && result.From == from && result.To == to
 //@ func NewStore
 //@   props C03
 //@   requires src != nil && dst != nil && storeOK(vtype(src), vtype(dst))
+//@   assigns caches
 //@   ensures result != nil && fresh(result) && result.Src == src && result.Dst == dst
+
+//@ # ---------------------------------------------------------------- C17 ---
+//@ # nextID (closure of AssignMetadataIDs): the next number above curID that is not in used.
+//@ func (*Module).AssignMetadataIDs$1
+//@   props C17
+//@   requires used != nil
+//@   assigns curID
+//@   ensures result == curID && curID > old(curID) && !used[result]
+//@   ensures forall(c int, old(curID) < c && c < result ==> used[c])
+//@   loop 0: invariant curID >= old(curID) && forall(c int, old(curID) < c && c <= curID ==> used[c])
+
+//@ # explicit(d): definitions that carried an ID on entry keep it; the others get the smallest unused numbers in order.
+//@ func (*Module).AssignMetadataIDs
+//@   props C17
+//@   requires m != nil
+//@   requires forall(i, 0, len(m.MetadataDefs), m.MetadataDefs[i] != nil && mdid(m.MetadataDefs[i]) >= -1)
+//@   requires forall(i int, j int, 0 <= i && i < j && j < len(m.MetadataDefs) ==> ptrof(m.MetadataDefs[i]) != ptrof(m.MetadataDefs[j]))
+//@   assigns ghost(mdid), ghost(held, addr(m.mu))
+//@   ensures result != nil ==> forall(i, 0, len(m.MetadataDefs), mdid(m.MetadataDefs[i]) == old(mdid(m.MetadataDefs[i])))
+//@   ensures result != nil ==> exists(i int, j int, 0 <= i && i < j && j < len(m.MetadataDefs) && old(mdid(m.MetadataDefs[i])) != -1 && old(mdid(m.MetadataDefs[i])) == old(mdid(m.MetadataDefs[j])))
+//@   ensures result == nil ==> forall(i, 0, len(m.MetadataDefs), old(mdid(m.MetadataDefs[i])) != -1 ==> mdid(m.MetadataDefs[i]) == old(mdid(m.MetadataDefs[i])))
+//@   ensures result == nil ==> forall(i, 0, len(m.MetadataDefs), mdid(m.MetadataDefs[i]) >= 0)
+//@   ensures result == nil ==> forall(i int, j int, 0 <= i && i < j && j < len(m.MetadataDefs) ==> mdid(m.MetadataDefs[i]) != mdid(m.MetadataDefs[j]))
+//@   ensures result == nil ==> forall(i int, c int, 0 <= i && i < len(m.MetadataDefs) && old(mdid(m.MetadataDefs[i])) == -1 && 0 <= c && c < mdid(m.MetadataDefs[i]) ==> exists(j, 0, len(m.MetadataDefs), mdid(m.MetadataDefs[j]) == c && (old(mdid(m.MetadataDefs[j])) != -1 || j < i)))
+//@   loop 0: invariant 0 <= range_i && range_i <= len(m.MetadataDefs) && used != nil
+//@   loop 0: invariant forall(k, 0, len(m.MetadataDefs), mdid(m.MetadataDefs[k]) == old(mdid(m.MetadataDefs[k])))
+//@   loop 0: invariant forall(c int, mapdom(used, c) ==> used[c])
+//@   loop 0: invariant forall(c int, used[c] <==> (c != -1 && exists(k, 0, range_i, mdid(m.MetadataDefs[k]) == c)))
+//@   loop 0: invariant forall(a int, b int, 0 <= a && a < b && b < range_i && mdid(m.MetadataDefs[a]) != -1 ==> mdid(m.MetadataDefs[a]) != mdid(m.MetadataDefs[b]))
+//@   loop 1: invariant 0 <= range_i && range_i <= len(m.MetadataDefs) && used != nil && curID >= -1
+//@   loop 1: invariant forall(c int, used[c] <==> (c != -1 && exists(k, 0, len(m.MetadataDefs), old(mdid(m.MetadataDefs[k])) == c)))
+//@   loop 1: invariant forall(a int, b int, 0 <= a && a < b && b < len(m.MetadataDefs) && old(mdid(m.MetadataDefs[a])) != -1 ==> old(mdid(m.MetadataDefs[a])) != old(mdid(m.MetadataDefs[b])))
+//@   loop 1: invariant forall(k, 0, len(m.MetadataDefs), old(mdid(m.MetadataDefs[k])) != -1 ==> mdid(m.MetadataDefs[k]) == old(mdid(m.MetadataDefs[k])))
+//@   loop 1: invariant forall(k, range_i, len(m.MetadataDefs), old(mdid(m.MetadataDefs[k])) == -1 ==> mdid(m.MetadataDefs[k]) == -1)
+//@   loop 1: invariant forall(k, 0, range_i, old(mdid(m.MetadataDefs[k])) == -1 ==> 0 <= mdid(m.MetadataDefs[k]) && mdid(m.MetadataDefs[k]) <= curID && !used[mdid(m.MetadataDefs[k])])
+//@   loop 1: invariant forall(a int, b int, 0 <= a && a < b && b < range_i && old(mdid(m.MetadataDefs[a])) == -1 && old(mdid(m.MetadataDefs[b])) == -1 ==> mdid(m.MetadataDefs[a]) < mdid(m.MetadataDefs[b]))
+//@   loop 1: invariant forall(c int, 0 <= c && c <= curID ==> used[c] || exists(k, 0, range_i, old(mdid(m.MetadataDefs[k])) == -1 && mdid(m.MetadataDefs[k]) == c))
+//@   loop 1: invariant forall(c int, used[c] ==> exists(j, 0, len(m.MetadataDefs), old(mdid(m.MetadataDefs[j])) != -1 && mdid(m.MetadataDefs[j]) == c))
+//@   loop 1: invariant forall(i int, c int, 0 <= i && i < range_i && old(mdid(m.MetadataDefs[i])) == -1 && 0 <= c && c < mdid(m.MetadataDefs[i]) ==> used[c] || exists(k, 0, i, old(mdid(m.MetadataDefs[k])) == -1 && mdid(m.MetadataDefs[k]) == c))
+
+//@ # ---------------------------------------------------------------- C08 / C13 ---
+//@ # The ID and the unnamed flag of a named value are abstract state nvid(n), nvun(n); idwrites(0)
+//@ # counts the calls of SetID (to state that renumbering a numbered function writes nothing).
+//@ ghost nvid(n namedVar) int
+//@ ghost nvun(n namedVar) bool
+//@ ghost idwrites(k int) int
+//@ func iface namedVar.IsUnnamed
+//@   ensures result == nvun(self)
+//@ func iface namedVar.ID
+//@   ensures result == nvid(self)
+//@ func iface namedVar.SetID
+//@   assigns ghost(nvid, self), ghost(idwrites, 0)
+//@   ensures nvid(self) == id && idwrites(0) == old(idwrites(0)) + 1
+
+//@ # setName (closure of AssignGlobalIDs): named values are skipped; an unnamed value whose ID is
+//@ # neither 0 nor the next number is rejected and nothing changes; otherwise it gets the next number,
+//@ # and SetID is not called when it carries that number already.
+//@ func (*Module).AssignGlobalIDs$1
+//@   props C08 C13
+//@   requires n != nil && id >= 0 && nvid(n) >= 0
+//@   assigns id, ghost(nvid, n), ghost(idwrites, 0)
+//@   ensures !nvun(n) ==> result == nil && id == old(id) && nvid(n) == old(nvid(n)) && idwrites(0) == old(idwrites(0))
+//@   ensures nvun(n) && old(nvid(n)) != 0 && old(nvid(n)) != old(id) ==> result != nil && id == old(id) && nvid(n) == old(nvid(n)) && idwrites(0) == old(idwrites(0))
+//@   ensures nvun(n) && (old(nvid(n)) == 0 || old(nvid(n)) == old(id)) ==> result == nil && id == old(id) + 1 && nvid(n) == old(id)
+//@   ensures old(nvid(n)) == old(id) ==> idwrites(0) == old(idwrites(0))
+//@ func (*Func).AssignIDs$1
+//@   props C08 C13
+//@   requires n != nil && f != nil && f.GlobalID >= 0 && id >= 0 && nvid(n) >= 0
+//@   assigns id, ghost(nvid, n), ghost(idwrites, 0)
+//@   ensures !nvun(n) ==> result == nil && id == old(id) && nvid(n) == old(nvid(n)) && idwrites(0) == old(idwrites(0))
+//@   ensures nvun(n) && old(nvid(n)) != 0 && old(nvid(n)) != old(id) ==> result != nil && id == old(id) && nvid(n) == old(nvid(n)) && idwrites(0) == old(idwrites(0))
+//@   ensures nvun(n) && (old(nvid(n)) == 0 || old(nvid(n)) == old(id)) ==> result == nil && id == old(id) + 1 && nvid(n) == old(id)
+//@   ensures old(nvid(n)) == old(id) ==> idwrites(0) == old(idwrites(0))
+
+//@ # ==== generated by /verif/tools/gen_ids_contracts.py: begin ====
+//@ # Numbering rule for globals: the n-th unnamed entity in the order global variables, aliases,
+//@ # ifuncs, functions gets @n. cntG(m, i) = number of unnamed ones among m.Globals[0..i), etc.
+//@ rec spec cntG(m *Module, i int) int reads {Module.Globals, elems(*Global), ghost(nvun)} = ite(i <= 0, 0, cntG(m, i - 1) + ite(nvun(m.Globals[i - 1]), 1, 0))
+//@ rec spec cntA(m *Module, i int) int reads {Module.Aliases, elems(*Alias), ghost(nvun)} = ite(i <= 0, 0, cntA(m, i - 1) + ite(nvun(m.Aliases[i - 1]), 1, 0))
+//@ rec spec cntI(m *Module, i int) int reads {Module.IFuncs, elems(*IFunc), ghost(nvun)} = ite(i <= 0, 0, cntI(m, i - 1) + ite(nvun(m.IFuncs[i - 1]), 1, 0))
+//@ rec spec cntF(m *Module, i int) int reads {Module.Funcs, elems(*Func), ghost(nvun)} = ite(i <= 0, 0, cntF(m, i - 1) + ite(nvun(m.Funcs[i - 1]), 1, 0))
+//@ macro rkG(m *Module, i int) int = cntG(m, i)
+//@ macro rkA(m *Module, i int) int = cntG(m, len(m.Globals)) + cntA(m, i)
+//@ macro rkI(m *Module, i int) int = cntG(m, len(m.Globals)) + cntA(m, len(m.Aliases)) + cntI(m, i)
+//@ macro rkF(m *Module, i int) int = cntG(m, len(m.Globals)) + cntA(m, len(m.Aliases)) + cntI(m, len(m.IFuncs)) + cntF(m, i)
+//@ func (*Module).AssignGlobalIDs
+//@   props C08 C13
+//@   requires m != nil
+//@   requires forall(k, 0, len(m.Globals), m.Globals[k] != nil && nvid(m.Globals[k]) >= 0)
+//@   requires forall(k, 0, len(m.Aliases), m.Aliases[k] != nil && nvid(m.Aliases[k]) >= 0)
+//@   requires forall(k, 0, len(m.IFuncs), m.IFuncs[k] != nil && nvid(m.IFuncs[k]) >= 0)
+//@   requires forall(k, 0, len(m.Funcs), m.Funcs[k] != nil && nvid(m.Funcs[k]) >= 0)
+//@   requires forall(i int, j int, 0 <= i && i < j && j < len(m.Globals) ==> m.Globals[i] != m.Globals[j])
+//@   requires forall(i int, j int, 0 <= i && i < j && j < len(m.Aliases) ==> m.Aliases[i] != m.Aliases[j])
+//@   requires forall(i int, j int, 0 <= i && i < j && j < len(m.IFuncs) ==> m.IFuncs[i] != m.IFuncs[j])
+//@   requires forall(i int, j int, 0 <= i && i < j && j < len(m.Funcs) ==> m.Funcs[i] != m.Funcs[j])
+//@   requires forall(i int, j int, 0 <= i && i < len(m.Globals) && 0 <= j && j < len(m.Aliases) ==> m.Globals[i] != m.Aliases[j])
+//@   requires forall(i int, j int, 0 <= i && i < len(m.Globals) && 0 <= j && j < len(m.IFuncs) ==> m.Globals[i] != m.IFuncs[j])
+//@   requires forall(i int, j int, 0 <= i && i < len(m.Globals) && 0 <= j && j < len(m.Funcs) ==> m.Globals[i] != m.Funcs[j])
+//@   requires forall(i int, j int, 0 <= i && i < len(m.Aliases) && 0 <= j && j < len(m.IFuncs) ==> m.Aliases[i] != m.IFuncs[j])
+//@   requires forall(i int, j int, 0 <= i && i < len(m.Aliases) && 0 <= j && j < len(m.Funcs) ==> m.Aliases[i] != m.Funcs[j])
+//@   requires forall(i int, j int, 0 <= i && i < len(m.IFuncs) && 0 <= j && j < len(m.Funcs) ==> m.IFuncs[i] != m.Funcs[j])
+//@   assigns ghost(nvid), ghost(idwrites, 0), ghost(held, addr(m.mu))
+//@   # success: every unnamed entity carries its rank; named ones are never touched
+//@   ensures result == nil ==> forall(k, 0, len(m.Globals), nvun(m.Globals[k]) ==> nvid(m.Globals[k]) == rkG(m, k))
+//@   ensures result == nil ==> forall(k, 0, len(m.Aliases), nvun(m.Aliases[k]) ==> nvid(m.Aliases[k]) == rkA(m, k))
+//@   ensures result == nil ==> forall(k, 0, len(m.IFuncs), nvun(m.IFuncs[k]) ==> nvid(m.IFuncs[k]) == rkI(m, k))
+//@   ensures result == nil ==> forall(k, 0, len(m.Funcs), nvun(m.Funcs[k]) ==> nvid(m.Funcs[k]) == rkF(m, k))
+//@   ensures forall(k, 0, len(m.Globals), !nvun(m.Globals[k]) ==> nvid(m.Globals[k]) == old(nvid(m.Globals[k])))
+//@   ensures forall(k, 0, len(m.Aliases), !nvun(m.Aliases[k]) ==> nvid(m.Aliases[k]) == old(nvid(m.Aliases[k])))
+//@   ensures forall(k, 0, len(m.IFuncs), !nvun(m.IFuncs[k]) ==> nvid(m.IFuncs[k]) == old(nvid(m.IFuncs[k])))
+//@   ensures forall(k, 0, len(m.Funcs), !nvun(m.Funcs[k]) ==> nvid(m.Funcs[k]) == old(nvid(m.Funcs[k])))
+//@   # failure only for an explicit non-zero ID that is not the rank
+//@   ensures result != nil ==> exists(k, 0, len(m.Globals), nvun(m.Globals[k]) && old(nvid(m.Globals[k])) != 0 && old(nvid(m.Globals[k])) != rkG(m, k)) || exists(k, 0, len(m.Aliases), nvun(m.Aliases[k]) && old(nvid(m.Aliases[k])) != 0 && old(nvid(m.Aliases[k])) != rkA(m, k)) || exists(k, 0, len(m.IFuncs), nvun(m.IFuncs[k]) && old(nvid(m.IFuncs[k])) != 0 && old(nvid(m.IFuncs[k])) != rkI(m, k)) || exists(k, 0, len(m.Funcs), nvun(m.Funcs[k]) && old(nvid(m.Funcs[k])) != 0 && old(nvid(m.Funcs[k])) != rkF(m, k))
+//@   # numbering an already numbered module: no error, no SetID call, nothing changes
+//@   ensures forall(k, 0, len(m.Globals), nvun(m.Globals[k]) ==> old(nvid(m.Globals[k])) == rkG(m, k)) && forall(k, 0, len(m.Aliases), nvun(m.Aliases[k]) ==> old(nvid(m.Aliases[k])) == rkA(m, k)) && forall(k, 0, len(m.IFuncs), nvun(m.IFuncs[k]) ==> old(nvid(m.IFuncs[k])) == rkI(m, k)) && forall(k, 0, len(m.Funcs), nvun(m.Funcs[k]) ==> old(nvid(m.Funcs[k])) == rkF(m, k)) ==> result == nil && idwrites(0) == old(idwrites(0))
+//@   loop 0: invariant 0 <= range_i && range_i <= len(m.Globals) && id >= 0 && id == rkG(m, range_i)
+//@   loop 0: invariant forall(k, 0, range_i, nvun(m.Globals[k]) ==> nvid(m.Globals[k]) == rkG(m, k))
+//@   loop 0: invariant forall(k, 0, range_i, nvun(m.Globals[k]) ==> old(nvid(m.Globals[k])) == 0 || old(nvid(m.Globals[k])) == rkG(m, k))
+//@   loop 0: invariant forall(k, range_i, len(m.Globals), nvid(m.Globals[k]) == old(nvid(m.Globals[k])))
+//@   loop 0: invariant forall(k, 0, len(m.Globals), !nvun(m.Globals[k]) ==> nvid(m.Globals[k]) == old(nvid(m.Globals[k])))
+//@   loop 0: invariant forall(k, 0, len(m.Aliases), nvid(m.Aliases[k]) == old(nvid(m.Aliases[k])))
+//@   loop 0: invariant forall(k, 0, len(m.Aliases), !nvun(m.Aliases[k]) ==> nvid(m.Aliases[k]) == old(nvid(m.Aliases[k])))
+//@   loop 0: invariant forall(k, 0, len(m.IFuncs), nvid(m.IFuncs[k]) == old(nvid(m.IFuncs[k])))
+//@   loop 0: invariant forall(k, 0, len(m.IFuncs), !nvun(m.IFuncs[k]) ==> nvid(m.IFuncs[k]) == old(nvid(m.IFuncs[k])))
+//@   loop 0: invariant forall(k, 0, len(m.Funcs), nvid(m.Funcs[k]) == old(nvid(m.Funcs[k])))
+//@   loop 0: invariant forall(k, 0, len(m.Funcs), !nvun(m.Funcs[k]) ==> nvid(m.Funcs[k]) == old(nvid(m.Funcs[k])))
+//@   loop 0: invariant forall(k, 0, range_i, nvun(m.Globals[k]) ==> old(nvid(m.Globals[k])) == rkG(m, k)) ==> idwrites(0) == old(idwrites(0))
+//@   loop 1: invariant 0 <= range_i && range_i <= len(m.Aliases) && id >= 0 && id == rkA(m, range_i)
+//@   loop 1: invariant forall(k, 0, len(m.Globals), nvun(m.Globals[k]) ==> nvid(m.Globals[k]) == rkG(m, k))
+//@   loop 1: invariant forall(k, 0, len(m.Globals), nvun(m.Globals[k]) ==> old(nvid(m.Globals[k])) == 0 || old(nvid(m.Globals[k])) == rkG(m, k))
+//@   loop 1: invariant forall(k, 0, len(m.Globals), !nvun(m.Globals[k]) ==> nvid(m.Globals[k]) == old(nvid(m.Globals[k])))
+//@   loop 1: invariant forall(k, 0, range_i, nvun(m.Aliases[k]) ==> nvid(m.Aliases[k]) == rkA(m, k))
+//@   loop 1: invariant forall(k, 0, range_i, nvun(m.Aliases[k]) ==> old(nvid(m.Aliases[k])) == 0 || old(nvid(m.Aliases[k])) == rkA(m, k))
+//@   loop 1: invariant forall(k, range_i, len(m.Aliases), nvid(m.Aliases[k]) == old(nvid(m.Aliases[k])))
+//@   loop 1: invariant forall(k, 0, len(m.Aliases), !nvun(m.Aliases[k]) ==> nvid(m.Aliases[k]) == old(nvid(m.Aliases[k])))
+//@   loop 1: invariant forall(k, 0, len(m.IFuncs), nvid(m.IFuncs[k]) == old(nvid(m.IFuncs[k])))
+//@   loop 1: invariant forall(k, 0, len(m.IFuncs), !nvun(m.IFuncs[k]) ==> nvid(m.IFuncs[k]) == old(nvid(m.IFuncs[k])))
+//@   loop 1: invariant forall(k, 0, len(m.Funcs), nvid(m.Funcs[k]) == old(nvid(m.Funcs[k])))
+//@   loop 1: invariant forall(k, 0, len(m.Funcs), !nvun(m.Funcs[k]) ==> nvid(m.Funcs[k]) == old(nvid(m.Funcs[k])))
+//@   loop 1: invariant forall(k, 0, len(m.Globals), nvun(m.Globals[k]) ==> old(nvid(m.Globals[k])) == rkG(m, k)) && forall(k, 0, range_i, nvun(m.Aliases[k]) ==> old(nvid(m.Aliases[k])) == rkA(m, k)) ==> idwrites(0) == old(idwrites(0))
+//@   loop 2: invariant 0 <= range_i && range_i <= len(m.IFuncs) && id >= 0 && id == rkI(m, range_i)
+//@   loop 2: invariant forall(k, 0, len(m.Globals), nvun(m.Globals[k]) ==> nvid(m.Globals[k]) == rkG(m, k))
+//@   loop 2: invariant forall(k, 0, len(m.Globals), nvun(m.Globals[k]) ==> old(nvid(m.Globals[k])) == 0 || old(nvid(m.Globals[k])) == rkG(m, k))
+//@   loop 2: invariant forall(k, 0, len(m.Globals), !nvun(m.Globals[k]) ==> nvid(m.Globals[k]) == old(nvid(m.Globals[k])))
+//@   loop 2: invariant forall(k, 0, len(m.Aliases), nvun(m.Aliases[k]) ==> nvid(m.Aliases[k]) == rkA(m, k))
+//@   loop 2: invariant forall(k, 0, len(m.Aliases), nvun(m.Aliases[k]) ==> old(nvid(m.Aliases[k])) == 0 || old(nvid(m.Aliases[k])) == rkA(m, k))
+//@   loop 2: invariant forall(k, 0, len(m.Aliases), !nvun(m.Aliases[k]) ==> nvid(m.Aliases[k]) == old(nvid(m.Aliases[k])))
+//@   loop 2: invariant forall(k, 0, range_i, nvun(m.IFuncs[k]) ==> nvid(m.IFuncs[k]) == rkI(m, k))
+//@   loop 2: invariant forall(k, 0, range_i, nvun(m.IFuncs[k]) ==> old(nvid(m.IFuncs[k])) == 0 || old(nvid(m.IFuncs[k])) == rkI(m, k))
+//@   loop 2: invariant forall(k, range_i, len(m.IFuncs), nvid(m.IFuncs[k]) == old(nvid(m.IFuncs[k])))
+//@   loop 2: invariant forall(k, 0, len(m.IFuncs), !nvun(m.IFuncs[k]) ==> nvid(m.IFuncs[k]) == old(nvid(m.IFuncs[k])))
+//@   loop 2: invariant forall(k, 0, len(m.Funcs), nvid(m.Funcs[k]) == old(nvid(m.Funcs[k])))
+//@   loop 2: invariant forall(k, 0, len(m.Funcs), !nvun(m.Funcs[k]) ==> nvid(m.Funcs[k]) == old(nvid(m.Funcs[k])))
+//@   loop 2: invariant forall(k, 0, len(m.Globals), nvun(m.Globals[k]) ==> old(nvid(m.Globals[k])) == rkG(m, k)) && forall(k, 0, len(m.Aliases), nvun(m.Aliases[k]) ==> old(nvid(m.Aliases[k])) == rkA(m, k)) && forall(k, 0, range_i, nvun(m.IFuncs[k]) ==> old(nvid(m.IFuncs[k])) == rkI(m, k)) ==> idwrites(0) == old(idwrites(0))
+//@   loop 3: invariant 0 <= range_i && range_i <= len(m.Funcs) && id >= 0 && id == rkF(m, range_i)
+//@   loop 3: invariant forall(k, 0, len(m.Globals), nvun(m.Globals[k]) ==> nvid(m.Globals[k]) == rkG(m, k))
+//@   loop 3: invariant forall(k, 0, len(m.Globals), nvun(m.Globals[k]) ==> old(nvid(m.Globals[k])) == 0 || old(nvid(m.Globals[k])) == rkG(m, k))
+//@   loop 3: invariant forall(k, 0, len(m.Globals), !nvun(m.Globals[k]) ==> nvid(m.Globals[k]) == old(nvid(m.Globals[k])))
+//@   loop 3: invariant forall(k, 0, len(m.Aliases), nvun(m.Aliases[k]) ==> nvid(m.Aliases[k]) == rkA(m, k))
+//@   loop 3: invariant forall(k, 0, len(m.Aliases), nvun(m.Aliases[k]) ==> old(nvid(m.Aliases[k])) == 0 || old(nvid(m.Aliases[k])) == rkA(m, k))
+//@   loop 3: invariant forall(k, 0, len(m.Aliases), !nvun(m.Aliases[k]) ==> nvid(m.Aliases[k]) == old(nvid(m.Aliases[k])))
+//@   loop 3: invariant forall(k, 0, len(m.IFuncs), nvun(m.IFuncs[k]) ==> nvid(m.IFuncs[k]) == rkI(m, k))
+//@   loop 3: invariant forall(k, 0, len(m.IFuncs), nvun(m.IFuncs[k]) ==> old(nvid(m.IFuncs[k])) == 0 || old(nvid(m.IFuncs[k])) == rkI(m, k))
+//@   loop 3: invariant forall(k, 0, len(m.IFuncs), !nvun(m.IFuncs[k]) ==> nvid(m.IFuncs[k]) == old(nvid(m.IFuncs[k])))
+//@   loop 3: invariant forall(k, 0, range_i, nvun(m.Funcs[k]) ==> nvid(m.Funcs[k]) == rkF(m, k))
+//@   loop 3: invariant forall(k, 0, range_i, nvun(m.Funcs[k]) ==> old(nvid(m.Funcs[k])) == 0 || old(nvid(m.Funcs[k])) == rkF(m, k))
+//@   loop 3: invariant forall(k, range_i, len(m.Funcs), nvid(m.Funcs[k]) == old(nvid(m.Funcs[k])))
+//@   loop 3: invariant forall(k, 0, len(m.Funcs), !nvun(m.Funcs[k]) ==> nvid(m.Funcs[k]) == old(nvid(m.Funcs[k])))
+//@   loop 3: invariant forall(k, 0, len(m.Globals), nvun(m.Globals[k]) ==> old(nvid(m.Globals[k])) == rkG(m, k)) && forall(k, 0, len(m.Aliases), nvun(m.Aliases[k]) ==> old(nvid(m.Aliases[k])) == rkA(m, k)) && forall(k, 0, len(m.IFuncs), nvun(m.IFuncs[k]) ==> old(nvid(m.IFuncs[k])) == rkI(m, k)) && forall(k, 0, range_i, nvun(m.Funcs[k]) ==> old(nvid(m.Funcs[k])) == rkF(m, k)) ==> idwrites(0) == old(idwrites(0))
+//@ # Numbering rule for locals (LLVM's slot numbering): the unnamed parameters first, then per basic block
+//@ # the block itself if unnamed, its unnamed value instructions whose type is not void, and its terminator
+//@ # likewise. cnts(x, vd): x consumes a number (vd = the void type).
+//@ spec isnv(x value.Value) bool = typeis(x, "namedVar")
+//@ spec cnts(x value.Value, vd types.Type) bool reads {ghost(nvun)} = isnv(x) && !teq(vtype(x), vd) && nvun(x)
+//@ rec spec cntP(f *Func, i int) int reads {Func.Params, elems(*Param), ghost(nvun)} = ite(i <= 0, 0, cntP(f, i - 1) + ite(nvun(f.Params[i - 1]), 1, 0))
+//@ rec spec cntIn(b *Block, j int, vd types.Type) int reads {Block.Insts, elems(Instruction), ghost(nvun)} = ite(j <= 0, 0, cntIn(b, j - 1, vd) + ite(cnts(b.Insts[j - 1], vd), 1, 0))
+//@ macro cntB(b *Block, vd types.Type) int = ite(nvun(b), 1, 0) + cntIn(b, len(b.Insts), vd) + ite(cnts(b.Term, vd), 1, 0)
+//@ rec spec cntBs(f *Func, i int, vd types.Type) int reads {Func.Blocks, elems(*Block), Block.Insts, Block.Term, elems(Instruction), ghost(nvun)} = ite(i <= 0, 0, cntBs(f, i - 1, vd) + cntB(f.Blocks[i - 1], vd))
+//@ macro lkP(f *Func, k int) int = cntP(f, k)
+//@ macro lkB(f *Func, b int, vd types.Type) int = cntP(f, len(f.Params)) + cntBs(f, b, vd)
+//@ macro lkI(f *Func, b int, j int, vd types.Type) int = lkB(f, b, vd) + ite(nvun(f.Blocks[b]), 1, 0) + cntIn(f.Blocks[b], j, vd)
+//@ macro lkT(f *Func, b int, vd types.Type) int = lkI(f, b, len(f.Blocks[b].Insts), vd)
+//@ # position ghosts: wk/wb/wj give every parameter, block, instruction and terminator of f its kind and
+//@ # indices; they are never assigned, so requiring them only says that these objects are pairwise distinct.
+//@ ghost wk(n namedVar) int
+//@ ghost wb(n namedVar) int
+//@ ghost wj(n namedVar) int
+//@ func (*Func).AssignIDs
+//@   props C08 C13
+//@   requires f != nil && f.GlobalID >= 0
+//@   requires forall(k, 0, len(f.Params), f.Params[k] != nil && nvid(f.Params[k]) >= 0 && wk(f.Params[k]) == 0 && wj(f.Params[k]) == k)
+//@   requires forall(b, 0, len(f.Blocks), f.Blocks[b] != nil && nvid(f.Blocks[b]) >= 0 && wk(f.Blocks[b]) == 1 && wb(f.Blocks[b]) == b)
+//@   requires forall(b int, j int, 0 <= b && b < len(f.Blocks) && 0 <= j && j < len(f.Blocks[b].Insts) ==> f.Blocks[b].Insts[j] != nil && nvid(f.Blocks[b].Insts[j]) >= 0 && wk(f.Blocks[b].Insts[j]) == 2 && wb(f.Blocks[b].Insts[j]) == b && wj(f.Blocks[b].Insts[j]) == j)
+//@   requires forall(b, 0, len(f.Blocks), f.Blocks[b].Term != nil ==> nvid(f.Blocks[b].Term) >= 0 && wk(f.Blocks[b].Term) == 3 && wb(f.Blocks[b].Term) == b)
+//@   assigns caches, ghost(nvid), ghost(idwrites, 0), ghost(held, addr(f.mu))
+//@   # success: every value that consumes a number carries its rank
+//@   ensures result == nil ==> forall(k, 0, len(f.Params), nvun(f.Params[k]) ==> nvid(f.Params[k]) == lkP(f, k))
+//@   ensures result == nil ==> forall(b, 0, len(f.Blocks), nvun(f.Blocks[b]) ==> nvid(f.Blocks[b]) == lkB(f, b, boxed(types.Void)))
+//@   ensures result == nil ==> forall(b int, j int, 0 <= b && b < len(f.Blocks) && 0 <= j && j < len(f.Blocks[b].Insts) ==> cnts(f.Blocks[b].Insts[j], boxed(types.Void)) ==> nvid(f.Blocks[b].Insts[j]) == lkI(f, b, j, boxed(types.Void)))
+//@   ensures result == nil ==> forall(b, 0, len(f.Blocks), cnts(f.Blocks[b].Term, boxed(types.Void)) ==> nvid(f.Blocks[b].Term) == lkT(f, b, boxed(types.Void)))
+//@   # values that consume no number (named, void, not a value) are never touched
+//@   ensures forall(k, 0, len(f.Params), !nvun(f.Params[k]) ==> nvid(f.Params[k]) == old(nvid(f.Params[k])))
+//@   ensures forall(b, 0, len(f.Blocks), !nvun(f.Blocks[b]) ==> nvid(f.Blocks[b]) == old(nvid(f.Blocks[b])))
+//@   ensures forall(b int, j int, 0 <= b && b < len(f.Blocks) && 0 <= j && j < len(f.Blocks[b].Insts) ==> !cnts(f.Blocks[b].Insts[j], boxed(types.Void)) ==> nvid(f.Blocks[b].Insts[j]) == old(nvid(f.Blocks[b].Insts[j])))
+//@   ensures forall(b, 0, len(f.Blocks), !cnts(f.Blocks[b].Term, boxed(types.Void)) ==> nvid(f.Blocks[b].Term) == old(nvid(f.Blocks[b].Term)))
+//@   # failure only for an explicit non-zero ID that is not the rank
+//@   ensures result != nil ==> exists(k, 0, len(f.Params), nvun(f.Params[k]) && old(nvid(f.Params[k])) != 0 && old(nvid(f.Params[k])) != lkP(f, k)) || exists(b, 0, len(f.Blocks), nvun(f.Blocks[b]) && old(nvid(f.Blocks[b])) != 0 && old(nvid(f.Blocks[b])) != lkB(f, b, boxed(types.Void))) || exists(b int, j int, 0 <= b && b < len(f.Blocks) && 0 <= j && j < len(f.Blocks[b].Insts) && cnts(f.Blocks[b].Insts[j], boxed(types.Void)) && old(nvid(f.Blocks[b].Insts[j])) != 0 && old(nvid(f.Blocks[b].Insts[j])) != lkI(f, b, j, boxed(types.Void))) || exists(b, 0, len(f.Blocks), cnts(f.Blocks[b].Term, boxed(types.Void)) && old(nvid(f.Blocks[b].Term)) != 0 && old(nvid(f.Blocks[b].Term)) != lkT(f, b, boxed(types.Void)))
+//@   # numbering an already numbered function: no error, no SetID call
+//@   ensures forall(k, 0, len(f.Params), nvun(f.Params[k]) ==> old(nvid(f.Params[k])) == lkP(f, k)) && forall(b, 0, len(f.Blocks), nvun(f.Blocks[b]) ==> old(nvid(f.Blocks[b])) == lkB(f, b, boxed(types.Void))) && forall(b int, j int, 0 <= b && b < len(f.Blocks) && 0 <= j && j < len(f.Blocks[b].Insts) ==> cnts(f.Blocks[b].Insts[j], boxed(types.Void)) ==> old(nvid(f.Blocks[b].Insts[j])) == lkI(f, b, j, boxed(types.Void))) && forall(b, 0, len(f.Blocks), cnts(f.Blocks[b].Term, boxed(types.Void)) ==> old(nvid(f.Blocks[b].Term)) == lkT(f, b, boxed(types.Void))) ==> result == nil && idwrites(0) == old(idwrites(0))
+//@   loop 0: invariant 0 <= range_i && range_i <= len(f.Params) && id >= 0 && id == lkP(f, range_i)
+//@   loop 0: invariant forall(k, 0, range_i, nvun(f.Params[k]) ==> nvid(f.Params[k]) == lkP(f, k))
+//@   loop 0: invariant forall(k, 0, range_i, nvun(f.Params[k]) ==> old(nvid(f.Params[k])) == 0 || old(nvid(f.Params[k])) == lkP(f, k))
+//@   loop 0: invariant forall(k, range_i, len(f.Params), nvid(f.Params[k]) == old(nvid(f.Params[k])))
+//@   loop 0: invariant forall(k, 0, len(f.Params), !nvun(f.Params[k]) ==> nvid(f.Params[k]) == old(nvid(f.Params[k])))
+//@   loop 0: invariant forall(b, 0, len(f.Blocks), nvid(f.Blocks[b]) == old(nvid(f.Blocks[b])))
+//@   loop 0: invariant forall(b int, j int, 0 <= b && b < len(f.Blocks) && 0 <= j && j < len(f.Blocks[b].Insts) ==> nvid(f.Blocks[b].Insts[j]) == old(nvid(f.Blocks[b].Insts[j])))
+//@   loop 0: invariant forall(b, 0, len(f.Blocks), nvid(f.Blocks[b].Term) == old(nvid(f.Blocks[b].Term)))
+//@   loop 0: invariant forall(k, 0, range_i, nvun(f.Params[k]) ==> old(nvid(f.Params[k])) == lkP(f, k)) ==> idwrites(0) == old(idwrites(0))
+//@   loop 1: invariant 0 <= range_i && range_i <= len(f.Blocks) && id >= 0 && id == lkB(f, range_i, boxed(types.Void))
+//@   loop 1: invariant forall(k, 0, len(f.Params), nvun(f.Params[k]) ==> nvid(f.Params[k]) == lkP(f, k))
+//@   loop 1: invariant forall(k, 0, len(f.Params), nvun(f.Params[k]) ==> old(nvid(f.Params[k])) == 0 || old(nvid(f.Params[k])) == lkP(f, k))
+//@   loop 1: invariant forall(k, 0, len(f.Params), !nvun(f.Params[k]) ==> nvid(f.Params[k]) == old(nvid(f.Params[k])))
+//@   loop 1: invariant forall(b, 0, range_i, nvun(f.Blocks[b]) ==> nvid(f.Blocks[b]) == lkB(f, b, boxed(types.Void)))
+//@   loop 1: invariant forall(b, 0, range_i, nvun(f.Blocks[b]) ==> old(nvid(f.Blocks[b])) == 0 || old(nvid(f.Blocks[b])) == lkB(f, b, boxed(types.Void)))
+//@   loop 1: invariant forall(b, 0, len(f.Blocks), !nvun(f.Blocks[b]) ==> nvid(f.Blocks[b]) == old(nvid(f.Blocks[b])))
+//@   loop 1: invariant forall(b int, j int, 0 <= b && b < range_i && 0 <= j && j < len(f.Blocks[b].Insts) ==> cnts(f.Blocks[b].Insts[j], boxed(types.Void)) ==> nvid(f.Blocks[b].Insts[j]) == lkI(f, b, j, boxed(types.Void)))
+//@   loop 1: invariant forall(b int, j int, 0 <= b && b < range_i && 0 <= j && j < len(f.Blocks[b].Insts) ==> cnts(f.Blocks[b].Insts[j], boxed(types.Void)) ==> old(nvid(f.Blocks[b].Insts[j])) == 0 || old(nvid(f.Blocks[b].Insts[j])) == lkI(f, b, j, boxed(types.Void)))
+//@   loop 1: invariant forall(b int, j int, 0 <= b && b < len(f.Blocks) && 0 <= j && j < len(f.Blocks[b].Insts) ==> !cnts(f.Blocks[b].Insts[j], boxed(types.Void)) ==> nvid(f.Blocks[b].Insts[j]) == old(nvid(f.Blocks[b].Insts[j])))
+//@   loop 1: invariant forall(b, 0, range_i, cnts(f.Blocks[b].Term, boxed(types.Void)) ==> nvid(f.Blocks[b].Term) == lkT(f, b, boxed(types.Void)))
+//@   loop 1: invariant forall(b, 0, range_i, cnts(f.Blocks[b].Term, boxed(types.Void)) ==> old(nvid(f.Blocks[b].Term)) == 0 || old(nvid(f.Blocks[b].Term)) == lkT(f, b, boxed(types.Void)))
+//@   loop 1: invariant forall(b, 0, len(f.Blocks), !cnts(f.Blocks[b].Term, boxed(types.Void)) ==> nvid(f.Blocks[b].Term) == old(nvid(f.Blocks[b].Term)))
+//@   loop 1: invariant forall(b, range_i, len(f.Blocks), nvid(f.Blocks[b]) == old(nvid(f.Blocks[b])))
+//@   loop 1: invariant forall(b int, j int, range_i <= b && b < len(f.Blocks) && 0 <= j && j < len(f.Blocks[b].Insts) ==> nvid(f.Blocks[b].Insts[j]) == old(nvid(f.Blocks[b].Insts[j])))
+//@   loop 1: invariant forall(b, range_i, len(f.Blocks), nvid(f.Blocks[b].Term) == old(nvid(f.Blocks[b].Term)))
+//@   loop 1: invariant forall(k, 0, len(f.Params), nvun(f.Params[k]) ==> old(nvid(f.Params[k])) == lkP(f, k)) && forall(b, 0, range_i, nvun(f.Blocks[b]) ==> old(nvid(f.Blocks[b])) == lkB(f, b, boxed(types.Void))) && forall(b int, j int, 0 <= b && b < range_i && 0 <= j && j < len(f.Blocks[b].Insts) ==> cnts(f.Blocks[b].Insts[j], boxed(types.Void)) ==> old(nvid(f.Blocks[b].Insts[j])) == lkI(f, b, j, boxed(types.Void))) && forall(b, 0, range_i, cnts(f.Blocks[b].Term, boxed(types.Void)) ==> old(nvid(f.Blocks[b].Term)) == lkT(f, b, boxed(types.Void))) ==> idwrites(0) == old(idwrites(0))
+//@   loop 2: invariant 0 <= range_at1 && range_at1 < len(f.Blocks) && block == f.Blocks[range_at1] && 0 <= range_i && range_i <= len(block.Insts) && id >= 0 && id == lkI(f, range_at1, range_i, boxed(types.Void))
+//@   loop 2: invariant forall(k, 0, len(f.Params), nvun(f.Params[k]) ==> nvid(f.Params[k]) == lkP(f, k))
+//@   loop 2: invariant forall(k, 0, len(f.Params), nvun(f.Params[k]) ==> old(nvid(f.Params[k])) == 0 || old(nvid(f.Params[k])) == lkP(f, k))
+//@   loop 2: invariant forall(k, 0, len(f.Params), !nvun(f.Params[k]) ==> nvid(f.Params[k]) == old(nvid(f.Params[k])))
+//@   loop 2: invariant forall(b, 0, range_at1, nvun(f.Blocks[b]) ==> nvid(f.Blocks[b]) == lkB(f, b, boxed(types.Void)))
+//@   loop 2: invariant forall(b, 0, range_at1, nvun(f.Blocks[b]) ==> old(nvid(f.Blocks[b])) == 0 || old(nvid(f.Blocks[b])) == lkB(f, b, boxed(types.Void)))
+//@   loop 2: invariant forall(b, 0, len(f.Blocks), !nvun(f.Blocks[b]) ==> nvid(f.Blocks[b]) == old(nvid(f.Blocks[b])))
+//@   loop 2: invariant forall(b int, j int, 0 <= b && b < range_at1 && 0 <= j && j < len(f.Blocks[b].Insts) ==> cnts(f.Blocks[b].Insts[j], boxed(types.Void)) ==> nvid(f.Blocks[b].Insts[j]) == lkI(f, b, j, boxed(types.Void)))
+//@   loop 2: invariant forall(b int, j int, 0 <= b && b < range_at1 && 0 <= j && j < len(f.Blocks[b].Insts) ==> cnts(f.Blocks[b].Insts[j], boxed(types.Void)) ==> old(nvid(f.Blocks[b].Insts[j])) == 0 || old(nvid(f.Blocks[b].Insts[j])) == lkI(f, b, j, boxed(types.Void)))
+//@   loop 2: invariant forall(b int, j int, 0 <= b && b < len(f.Blocks) && 0 <= j && j < len(f.Blocks[b].Insts) ==> !cnts(f.Blocks[b].Insts[j], boxed(types.Void)) ==> nvid(f.Blocks[b].Insts[j]) == old(nvid(f.Blocks[b].Insts[j])))
+//@   loop 2: invariant forall(b, 0, range_at1, cnts(f.Blocks[b].Term, boxed(types.Void)) ==> nvid(f.Blocks[b].Term) == lkT(f, b, boxed(types.Void)))
+//@   loop 2: invariant forall(b, 0, range_at1, cnts(f.Blocks[b].Term, boxed(types.Void)) ==> old(nvid(f.Blocks[b].Term)) == 0 || old(nvid(f.Blocks[b].Term)) == lkT(f, b, boxed(types.Void)))
+//@   loop 2: invariant forall(b, 0, len(f.Blocks), !cnts(f.Blocks[b].Term, boxed(types.Void)) ==> nvid(f.Blocks[b].Term) == old(nvid(f.Blocks[b].Term)))
+//@   loop 2: invariant nvun(f.Blocks[range_at1]) ==> nvid(f.Blocks[range_at1]) == lkB(f, range_at1, boxed(types.Void))
+//@   loop 2: invariant nvun(f.Blocks[range_at1]) ==> old(nvid(f.Blocks[range_at1])) == 0 || old(nvid(f.Blocks[range_at1])) == lkB(f, range_at1, boxed(types.Void))
+//@   loop 2: invariant forall(j, 0, range_i, cnts(f.Blocks[range_at1].Insts[j], boxed(types.Void)) ==> nvid(f.Blocks[range_at1].Insts[j]) == lkI(f, range_at1, j, boxed(types.Void)))
+//@   loop 2: invariant forall(j, 0, range_i, cnts(f.Blocks[range_at1].Insts[j], boxed(types.Void)) ==> old(nvid(f.Blocks[range_at1].Insts[j])) == 0 || old(nvid(f.Blocks[range_at1].Insts[j])) == lkI(f, range_at1, j, boxed(types.Void)))
+//@   loop 2: invariant forall(j, range_i, len(block.Insts), nvid(f.Blocks[range_at1].Insts[j]) == old(nvid(f.Blocks[range_at1].Insts[j])))
+//@   loop 2: invariant forall(b, range_at1 + 1, len(f.Blocks), nvid(f.Blocks[b]) == old(nvid(f.Blocks[b])))
+//@   loop 2: invariant forall(b int, j int, range_at1 + 1 <= b && b < len(f.Blocks) && 0 <= j && j < len(f.Blocks[b].Insts) ==> nvid(f.Blocks[b].Insts[j]) == old(nvid(f.Blocks[b].Insts[j])))
+//@   loop 2: invariant forall(b, range_at1, len(f.Blocks), nvid(f.Blocks[b].Term) == old(nvid(f.Blocks[b].Term)))
+//@   loop 2: invariant forall(k, 0, len(f.Params), nvun(f.Params[k]) ==> old(nvid(f.Params[k])) == lkP(f, k)) && forall(b, 0, range_at1 + 1, nvun(f.Blocks[b]) ==> old(nvid(f.Blocks[b])) == lkB(f, b, boxed(types.Void))) && forall(b int, j int, 0 <= b && b < range_at1 && 0 <= j && j < len(f.Blocks[b].Insts) ==> cnts(f.Blocks[b].Insts[j], boxed(types.Void)) ==> old(nvid(f.Blocks[b].Insts[j])) == lkI(f, b, j, boxed(types.Void))) && forall(j, 0, range_i, cnts(f.Blocks[range_at1].Insts[j], boxed(types.Void)) ==> old(nvid(f.Blocks[range_at1].Insts[j])) == lkI(f, range_at1, j, boxed(types.Void))) && forall(b, 0, range_at1, cnts(f.Blocks[b].Term, boxed(types.Void)) ==> old(nvid(f.Blocks[b].Term)) == lkT(f, b, boxed(types.Void))) ==> idwrites(0) == old(idwrites(0))
+//@ # ==== generated by /verif/tools/gen_ids_contracts.py: end ====
 
 //@ # ==== generated by /verif/tools/gen_ir_contracts.py: begin ====
 //@ # ---------------------------------------------------------------- C06 / C14 ---
@@ -48,139 +309,139 @@ package ir
 //@   props C06 C14
 //@   requires inst != nil && inst.X != nil
 //@   requires inst.Typ == nil || inst.Typ == vtype(inst.X)
-//@   assigns inst.Typ
+//@   assigns caches
 //@   ensures result == vtype(inst.X) && inst.Typ == result
 //@ func (*InstAdd).Type
 //@   props C06 C14
 //@   requires inst != nil && inst.X != nil
 //@   requires inst.Typ == nil || inst.Typ == vtype(inst.X)
-//@   assigns inst.Typ
+//@   assigns caches
 //@   ensures result == vtype(inst.X) && inst.Typ == result
 //@ func (*InstFAdd).Type
 //@   props C06 C14
 //@   requires inst != nil && inst.X != nil
 //@   requires inst.Typ == nil || inst.Typ == vtype(inst.X)
-//@   assigns inst.Typ
+//@   assigns caches
 //@   ensures result == vtype(inst.X) && inst.Typ == result
 //@ func (*InstSub).Type
 //@   props C06 C14
 //@   requires inst != nil && inst.X != nil
 //@   requires inst.Typ == nil || inst.Typ == vtype(inst.X)
-//@   assigns inst.Typ
+//@   assigns caches
 //@   ensures result == vtype(inst.X) && inst.Typ == result
 //@ func (*InstFSub).Type
 //@   props C06 C14
 //@   requires inst != nil && inst.X != nil
 //@   requires inst.Typ == nil || inst.Typ == vtype(inst.X)
-//@   assigns inst.Typ
+//@   assigns caches
 //@   ensures result == vtype(inst.X) && inst.Typ == result
 //@ func (*InstMul).Type
 //@   props C06 C14
 //@   requires inst != nil && inst.X != nil
 //@   requires inst.Typ == nil || inst.Typ == vtype(inst.X)
-//@   assigns inst.Typ
+//@   assigns caches
 //@   ensures result == vtype(inst.X) && inst.Typ == result
 //@ func (*InstFMul).Type
 //@   props C06 C14
 //@   requires inst != nil && inst.X != nil
 //@   requires inst.Typ == nil || inst.Typ == vtype(inst.X)
-//@   assigns inst.Typ
+//@   assigns caches
 //@   ensures result == vtype(inst.X) && inst.Typ == result
 //@ func (*InstUDiv).Type
 //@   props C06 C14
 //@   requires inst != nil && inst.X != nil
 //@   requires inst.Typ == nil || inst.Typ == vtype(inst.X)
-//@   assigns inst.Typ
+//@   assigns caches
 //@   ensures result == vtype(inst.X) && inst.Typ == result
 //@ func (*InstSDiv).Type
 //@   props C06 C14
 //@   requires inst != nil && inst.X != nil
 //@   requires inst.Typ == nil || inst.Typ == vtype(inst.X)
-//@   assigns inst.Typ
+//@   assigns caches
 //@   ensures result == vtype(inst.X) && inst.Typ == result
 //@ func (*InstFDiv).Type
 //@   props C06 C14
 //@   requires inst != nil && inst.X != nil
 //@   requires inst.Typ == nil || inst.Typ == vtype(inst.X)
-//@   assigns inst.Typ
+//@   assigns caches
 //@   ensures result == vtype(inst.X) && inst.Typ == result
 //@ func (*InstURem).Type
 //@   props C06 C14
 //@   requires inst != nil && inst.X != nil
 //@   requires inst.Typ == nil || inst.Typ == vtype(inst.X)
-//@   assigns inst.Typ
+//@   assigns caches
 //@   ensures result == vtype(inst.X) && inst.Typ == result
 //@ func (*InstSRem).Type
 //@   props C06 C14
 //@   requires inst != nil && inst.X != nil
 //@   requires inst.Typ == nil || inst.Typ == vtype(inst.X)
-//@   assigns inst.Typ
+//@   assigns caches
 //@   ensures result == vtype(inst.X) && inst.Typ == result
 //@ func (*InstFRem).Type
 //@   props C06 C14
 //@   requires inst != nil && inst.X != nil
 //@   requires inst.Typ == nil || inst.Typ == vtype(inst.X)
-//@   assigns inst.Typ
+//@   assigns caches
 //@   ensures result == vtype(inst.X) && inst.Typ == result
 //@ func (*InstShl).Type
 //@   props C06 C14
 //@   requires inst != nil && inst.X != nil
 //@   requires inst.Typ == nil || inst.Typ == vtype(inst.X)
-//@   assigns inst.Typ
+//@   assigns caches
 //@   ensures result == vtype(inst.X) && inst.Typ == result
 //@ func (*InstLShr).Type
 //@   props C06 C14
 //@   requires inst != nil && inst.X != nil
 //@   requires inst.Typ == nil || inst.Typ == vtype(inst.X)
-//@   assigns inst.Typ
+//@   assigns caches
 //@   ensures result == vtype(inst.X) && inst.Typ == result
 //@ func (*InstAShr).Type
 //@   props C06 C14
 //@   requires inst != nil && inst.X != nil
 //@   requires inst.Typ == nil || inst.Typ == vtype(inst.X)
-//@   assigns inst.Typ
+//@   assigns caches
 //@   ensures result == vtype(inst.X) && inst.Typ == result
 //@ func (*InstAnd).Type
 //@   props C06 C14
 //@   requires inst != nil && inst.X != nil
 //@   requires inst.Typ == nil || inst.Typ == vtype(inst.X)
-//@   assigns inst.Typ
+//@   assigns caches
 //@   ensures result == vtype(inst.X) && inst.Typ == result
 //@ func (*InstOr).Type
 //@   props C06 C14
 //@   requires inst != nil && inst.X != nil
 //@   requires inst.Typ == nil || inst.Typ == vtype(inst.X)
-//@   assigns inst.Typ
+//@   assigns caches
 //@   ensures result == vtype(inst.X) && inst.Typ == result
 //@ func (*InstXor).Type
 //@   props C06 C14
 //@   requires inst != nil && inst.X != nil
 //@   requires inst.Typ == nil || inst.Typ == vtype(inst.X)
-//@   assigns inst.Typ
+//@   assigns caches
 //@   ensures result == vtype(inst.X) && inst.Typ == result
 //@ func (*InstFreeze).Type
 //@   props C06 C14
 //@   requires inst != nil && inst.X != nil
 //@   requires inst.Typ == nil || inst.Typ == vtype(inst.X)
-//@   assigns inst.Typ
+//@   assigns caches
 //@   ensures result == vtype(inst.X) && inst.Typ == result
 //@ func (*InstInsertValue).Type
 //@   props C06 C14
 //@   requires inst != nil && inst.X != nil
 //@   requires inst.Typ == nil || inst.Typ == vtype(inst.X)
-//@   assigns inst.Typ
+//@   assigns caches
 //@   ensures result == vtype(inst.X) && inst.Typ == result
 //@ func (*InstSelect).Type
 //@   props C06 C14
 //@   requires inst != nil && inst.ValueTrue != nil
 //@   requires inst.Typ == nil || inst.Typ == vtype(inst.ValueTrue)
-//@   assigns inst.Typ
+//@   assigns caches
 //@   ensures result == vtype(inst.ValueTrue) && inst.Typ == result
 //@ func (*InstPhi).Type
 //@   props C06 C14
 //@   requires inst != nil && len(inst.Incs) >= 1 && inst.Incs[0] != nil && inst.Incs[0].X != nil
 //@   requires inst.Typ == nil || inst.Typ == vtype(inst.Incs[0].X)
-//@   assigns inst.Typ
+//@   assigns caches
 //@   ensures result == vtype(inst.Incs[0].X) && inst.Typ == result
 //@ func (*InstTrunc).Type
 //@   props C06 C14
@@ -281,67 +542,67 @@ package ir
 //@   props C06 C14
 //@   requires inst != nil && inst.X != nil && types.I1 != nil && types.I1.BitSize == 1 && (typeis(vtype(inst.X), "*types.IntType") || typeis(vtype(inst.X), "*types.PointerType") || isVec(vtype(inst.X)))
 //@   requires inst.Typ == nil || cmpTy(inst.Typ, vtype(inst.X))
-//@   assigns inst.Typ
+//@   assigns caches
 //@   ensures cmpTy(result, vtype(inst.X)) && inst.Typ == result
 //@ func (*InstFCmp).Type
 //@   props C06 C14
 //@   requires inst != nil && inst.X != nil && types.I1 != nil && types.I1.BitSize == 1 && (typeis(vtype(inst.X), "*types.FloatType") || isVec(vtype(inst.X)))
 //@   requires inst.Typ == nil || cmpTy(inst.Typ, vtype(inst.X))
-//@   assigns inst.Typ
+//@   assigns caches
 //@   ensures cmpTy(result, vtype(inst.X)) && inst.Typ == result
 //@ func (*InstAlloca).Type
 //@   props C06 C14
 //@   requires inst != nil
 //@   requires inst.Typ == nil || ptrTo(boxed(inst.Typ), inst.ElemType, inst.AddrSpace)
-//@   assigns inst.Typ
+//@   assigns caches
 //@   ensures result != nil && ptrTo(result, inst.ElemType, inst.AddrSpace) && boxed(inst.Typ) == result
 //@ func (*InstCmpXchg).Type
 //@   props C06 C14
 //@   requires inst != nil && inst.New != nil && types.I1 != nil && types.I1.BitSize == 1
 //@   requires inst.Typ == nil || cmpxchgTy(boxed(inst.Typ), vtype(inst.New))
-//@   assigns inst.Typ
+//@   assigns caches
 //@   ensures cmpxchgTy(result, vtype(inst.New)) && boxed(inst.Typ) == result
 //@ func (*InstAtomicRMW).Type
 //@   props C06 C14
 //@   requires inst != nil && inst.Dst != nil && typeis(vtype(inst.Dst), "*types.PointerType")
 //@   requires inst.Typ == nil || inst.Typ == cast(vtype(inst.Dst), "*types.PointerType").ElemType
-//@   assigns inst.Typ
+//@   assigns caches
 //@   ensures result == cast(vtype(inst.Dst), "*types.PointerType").ElemType && inst.Typ == result
 //@ func (*InstExtractElement).Type
 //@   props C06 C14
 //@   requires inst != nil && inst.X != nil && isVec(vtype(inst.X))
 //@   requires inst.Typ == nil || inst.Typ == velem(vtype(inst.X))
-//@   assigns inst.Typ
+//@   assigns caches
 //@   ensures result == velem(vtype(inst.X)) && inst.Typ == result
 //@ func (*InstInsertElement).Type
 //@   props C06 C14
 //@   requires inst != nil && inst.X != nil && isVec(vtype(inst.X))
 //@   requires inst.Typ == nil || boxed(inst.Typ) == vtype(inst.X)
-//@   assigns inst.Typ
+//@   assigns caches
 //@   ensures result == vtype(inst.X) && boxed(inst.Typ) == result
 //@ func (*InstShuffleVector).Type
 //@   props C06 C14
 //@   requires inst != nil && inst.X != nil && inst.Mask != nil && isVec(vtype(inst.X)) && isVec(vtype(inst.Mask))
 //@   requires inst.Typ == nil || shuffleTy(boxed(inst.Typ), vtype(inst.X), vtype(inst.Mask))
-//@   assigns inst.Typ
+//@   assigns caches
 //@   ensures shuffleTy(result, vtype(inst.X), vtype(inst.Mask)) && boxed(inst.Typ) == result
 //@ func (*InstCall).Type
 //@   props C06 C14
 //@   requires inst != nil && inst.Callee != nil && isFuncPtr(vtype(inst.Callee))
 //@   requires inst.Typ == nil || inst.Typ == calleeRet(vtype(inst.Callee))
-//@   assigns inst.Typ
+//@   assigns caches
 //@   ensures result == calleeRet(vtype(inst.Callee)) && inst.Typ == result
 //@ func (*TermInvoke).Type
 //@   props C06 C14
 //@   requires term != nil && term.Invokee != nil && isFuncPtr(vtype(term.Invokee))
 //@   requires term.Typ == nil || term.Typ == calleeRet(vtype(term.Invokee))
-//@   assigns term.Typ
+//@   assigns caches
 //@   ensures result == calleeRet(vtype(term.Invokee)) && term.Typ == result
 //@ func (*TermCallBr).Type
 //@   props C06 C14
 //@   requires term != nil && term.Callee != nil && isFuncPtr(vtype(term.Callee))
 //@   requires term.Typ == nil || term.Typ == calleeRet(vtype(term.Callee))
-//@   assigns term.Typ
+//@   assigns caches
 //@   ensures result == calleeRet(vtype(term.Callee)) && term.Typ == result
 
 //@ # ---------------------------------------------------------------- C03 ---
@@ -349,24 +610,29 @@ package ir
 //@ func NewAShr
 //@   props C03
 //@   requires x != nil
+//@   assigns caches
 //@   ensures result != nil && fresh(result) && result.X == x && result.Y == y
 //@ func NewAdd
 //@   props C03
 //@   requires x != nil
+//@   assigns caches
 //@   ensures result != nil && fresh(result) && result.X == x && result.Y == y
 //@ func NewAddrSpaceCast
 //@   props C03
 //@   ensures result != nil && fresh(result) && result.From == from && result.To == to
 //@ func NewAlloca
 //@   props C03
+//@   assigns caches
 //@   ensures result != nil && fresh(result) && result.ElemType == elemType
 //@ func NewAnd
 //@   props C03
 //@   requires x != nil
+//@   assigns caches
 //@   ensures result != nil && fresh(result) && result.X == x && result.Y == y
 //@ func NewAtomicRMW
 //@   props C03
 //@   requires dst != nil && typeis(vtype(dst), "*types.PointerType")
+//@   assigns caches
 //@   ensures result != nil && fresh(result) && result.Op == op && result.Dst == dst && result.X == x && result.Ordering == ordering
 //@ func NewBitCast
 //@   props C03
@@ -377,6 +643,7 @@ package ir
 //@ func NewCall
 //@   props C03
 //@   requires callee != nil && isFuncPtr(vtype(callee))
+//@   assigns caches
 //@   ensures result != nil && fresh(result) && result.Callee == callee && result.Args == args
 //@ func NewCatchPad
 //@   props C03
@@ -390,6 +657,7 @@ package ir
 //@ func NewCmpXchg
 //@   props C03
 //@   requires new != nil && types.I1 != nil && types.I1.BitSize == 1
+//@   assigns caches
 //@   ensures result != nil && fresh(result) && result.Ptr == ptr && result.Cmp == cmp && result.New == new && result.SuccessOrdering == successOrdering && result.FailureOrdering == failureOrdering
 //@ func NewCondBr
 //@   props C03
@@ -397,26 +665,32 @@ package ir
 //@ func NewExtractElement
 //@   props C03
 //@   requires x != nil && isVec(vtype(x))
+//@   assigns caches
 //@   ensures result != nil && fresh(result) && result.X == x && result.Index == index
 //@ func NewFAdd
 //@   props C03
 //@   requires x != nil
+//@   assigns caches
 //@   ensures result != nil && fresh(result) && result.X == x && result.Y == y
 //@ func NewFCmp
 //@   props C03
 //@   requires x != nil && types.I1 != nil && types.I1.BitSize == 1 && (typeis(vtype(x), "*types.FloatType") || isVec(vtype(x)))
+//@   assigns caches
 //@   ensures result != nil && fresh(result) && result.Pred == pred && result.X == x && result.Y == y
 //@ func NewFDiv
 //@   props C03
 //@   requires x != nil
+//@   assigns caches
 //@   ensures result != nil && fresh(result) && result.X == x && result.Y == y
 //@ func NewFMul
 //@   props C03
 //@   requires x != nil
+//@   assigns caches
 //@   ensures result != nil && fresh(result) && result.X == x && result.Y == y
 //@ func NewFNeg
 //@   props C03
 //@   requires x != nil
+//@   assigns caches
 //@   ensures result != nil && fresh(result) && result.X == x
 //@ func NewFPExt
 //@   props C03
@@ -433,10 +707,12 @@ package ir
 //@ func NewFRem
 //@   props C03
 //@   requires x != nil
+//@   assigns caches
 //@   ensures result != nil && fresh(result) && result.X == x && result.Y == y
 //@ func NewFSub
 //@   props C03
 //@   requires x != nil
+//@   assigns caches
 //@   ensures result != nil && fresh(result) && result.X == x && result.Y == y
 //@ func NewFence
 //@   props C03
@@ -444,14 +720,17 @@ package ir
 //@ func NewICmp
 //@   props C03
 //@   requires x != nil && types.I1 != nil && types.I1.BitSize == 1 && (typeis(vtype(x), "*types.IntType") || typeis(vtype(x), "*types.PointerType") || isVec(vtype(x)))
+//@   assigns caches
 //@   ensures result != nil && fresh(result) && result.Pred == pred && result.X == x && result.Y == y
 //@ func NewInsertElement
 //@   props C03
 //@   requires x != nil && isVec(vtype(x))
+//@   assigns caches
 //@   ensures result != nil && fresh(result) && result.X == x && result.Elem == elem && result.Index == index
 //@ func NewInstFreeze
 //@   props C03
 //@   requires x != nil
+//@   assigns caches
 //@   ensures result != nil && fresh(result) && result.X == x
 //@ func NewIntToPtr
 //@   props C03
@@ -459,10 +738,12 @@ package ir
 //@ func NewInvoke
 //@   props C03
 //@   requires invokee != nil && isFuncPtr(vtype(invokee))
+//@   assigns caches
 //@   ensures result != nil && fresh(result) && result.Invokee == invokee && result.Args == args && result.NormalRetTarget == normalRetTarget && result.ExceptionRetTarget == exceptionRetTarget
 //@ func NewLShr
 //@   props C03
 //@   requires x != nil
+//@   assigns caches
 //@   ensures result != nil && fresh(result) && result.X == x && result.Y == y
 //@ func NewLandingPad
 //@   props C03
@@ -473,14 +754,17 @@ package ir
 //@ func NewMul
 //@   props C03
 //@   requires x != nil
+//@   assigns caches
 //@   ensures result != nil && fresh(result) && result.X == x && result.Y == y
 //@ func NewOr
 //@   props C03
 //@   requires x != nil
+//@   assigns caches
 //@   ensures result != nil && fresh(result) && result.X == x && result.Y == y
 //@ func NewPhi
 //@   props C03
 //@   requires len(incs) >= 1 && incs[0] != nil && incs[0].X != nil
+//@   assigns caches
 //@   ensures result != nil && fresh(result) && result.Incs == incs
 //@ func NewPtrToInt
 //@   props C03
@@ -494,6 +778,7 @@ package ir
 //@ func NewSDiv
 //@   props C03
 //@   requires x != nil
+//@   assigns caches
 //@   ensures result != nil && fresh(result) && result.X == x && result.Y == y
 //@ func NewSExt
 //@   props C03
@@ -504,22 +789,27 @@ package ir
 //@ func NewSRem
 //@   props C03
 //@   requires x != nil
+//@   assigns caches
 //@   ensures result != nil && fresh(result) && result.X == x && result.Y == y
 //@ func NewSelect
 //@   props C03
 //@   requires valueTrue != nil
+//@   assigns caches
 //@   ensures result != nil && fresh(result) && result.Cond == cond && result.ValueTrue == valueTrue && result.ValueFalse == valueFalse
 //@ func NewShl
 //@   props C03
 //@   requires x != nil
+//@   assigns caches
 //@   ensures result != nil && fresh(result) && result.X == x && result.Y == y
 //@ func NewShuffleVector
 //@   props C03
 //@   requires x != nil && mask != nil && isVec(vtype(x)) && isVec(vtype(mask))
+//@   assigns caches
 //@   ensures result != nil && fresh(result) && result.X == x && result.Y == y && result.Mask == mask
 //@ func NewSub
 //@   props C03
 //@   requires x != nil
+//@   assigns caches
 //@   ensures result != nil && fresh(result) && result.X == x && result.Y == y
 //@ func NewSwitch
 //@   props C03
@@ -527,6 +817,7 @@ package ir
 //@ func NewUDiv
 //@   props C03
 //@   requires x != nil
+//@   assigns caches
 //@   ensures result != nil && fresh(result) && result.X == x && result.Y == y
 //@ func NewUIToFP
 //@   props C03
@@ -534,6 +825,7 @@ package ir
 //@ func NewURem
 //@   props C03
 //@   requires x != nil
+//@   assigns caches
 //@   ensures result != nil && fresh(result) && result.X == x && result.Y == y
 //@ func NewUnreachable
 //@   props C03
@@ -544,6 +836,7 @@ package ir
 //@ func NewXor
 //@   props C03
 //@   requires x != nil
+//@   assigns caches
 //@   ensures result != nil && fresh(result) && result.X == x && result.Y == y
 //@ func NewZExt
 //@   props C03
@@ -551,126 +844,126 @@ package ir
 //@ func (*Block).NewAdd
 //@   props C03
 //@   requires block != nil && x != nil
-//@   assigns block.Insts
+//@   assigns block.Insts, caches
 //@   ensures result != nil && fresh(result) && result.X == x && result.Y == y
 //@   ensures len(block.Insts) == old(len(block.Insts)) + 1 && block.Insts[old(len(block.Insts))] == boxed(result)
 //@   ensures forall(k, 0, old(len(block.Insts)), block.Insts[k] == old(block.Insts[k]))
 //@ func (*Block).NewFAdd
 //@   props C03
 //@   requires block != nil && x != nil
-//@   assigns block.Insts
+//@   assigns block.Insts, caches
 //@   ensures result != nil && fresh(result) && result.X == x && result.Y == y
 //@   ensures len(block.Insts) == old(len(block.Insts)) + 1 && block.Insts[old(len(block.Insts))] == boxed(result)
 //@   ensures forall(k, 0, old(len(block.Insts)), block.Insts[k] == old(block.Insts[k]))
 //@ func (*Block).NewSub
 //@   props C03
 //@   requires block != nil && x != nil
-//@   assigns block.Insts
+//@   assigns block.Insts, caches
 //@   ensures result != nil && fresh(result) && result.X == x && result.Y == y
 //@   ensures len(block.Insts) == old(len(block.Insts)) + 1 && block.Insts[old(len(block.Insts))] == boxed(result)
 //@   ensures forall(k, 0, old(len(block.Insts)), block.Insts[k] == old(block.Insts[k]))
 //@ func (*Block).NewFSub
 //@   props C03
 //@   requires block != nil && x != nil
-//@   assigns block.Insts
+//@   assigns block.Insts, caches
 //@   ensures result != nil && fresh(result) && result.X == x && result.Y == y
 //@   ensures len(block.Insts) == old(len(block.Insts)) + 1 && block.Insts[old(len(block.Insts))] == boxed(result)
 //@   ensures forall(k, 0, old(len(block.Insts)), block.Insts[k] == old(block.Insts[k]))
 //@ func (*Block).NewMul
 //@   props C03
 //@   requires block != nil && x != nil
-//@   assigns block.Insts
+//@   assigns block.Insts, caches
 //@   ensures result != nil && fresh(result) && result.X == x && result.Y == y
 //@   ensures len(block.Insts) == old(len(block.Insts)) + 1 && block.Insts[old(len(block.Insts))] == boxed(result)
 //@   ensures forall(k, 0, old(len(block.Insts)), block.Insts[k] == old(block.Insts[k]))
 //@ func (*Block).NewFMul
 //@   props C03
 //@   requires block != nil && x != nil
-//@   assigns block.Insts
+//@   assigns block.Insts, caches
 //@   ensures result != nil && fresh(result) && result.X == x && result.Y == y
 //@   ensures len(block.Insts) == old(len(block.Insts)) + 1 && block.Insts[old(len(block.Insts))] == boxed(result)
 //@   ensures forall(k, 0, old(len(block.Insts)), block.Insts[k] == old(block.Insts[k]))
 //@ func (*Block).NewUDiv
 //@   props C03
 //@   requires block != nil && x != nil
-//@   assigns block.Insts
+//@   assigns block.Insts, caches
 //@   ensures result != nil && fresh(result) && result.X == x && result.Y == y
 //@   ensures len(block.Insts) == old(len(block.Insts)) + 1 && block.Insts[old(len(block.Insts))] == boxed(result)
 //@   ensures forall(k, 0, old(len(block.Insts)), block.Insts[k] == old(block.Insts[k]))
 //@ func (*Block).NewSDiv
 //@   props C03
 //@   requires block != nil && x != nil
-//@   assigns block.Insts
+//@   assigns block.Insts, caches
 //@   ensures result != nil && fresh(result) && result.X == x && result.Y == y
 //@   ensures len(block.Insts) == old(len(block.Insts)) + 1 && block.Insts[old(len(block.Insts))] == boxed(result)
 //@   ensures forall(k, 0, old(len(block.Insts)), block.Insts[k] == old(block.Insts[k]))
 //@ func (*Block).NewFDiv
 //@   props C03
 //@   requires block != nil && x != nil
-//@   assigns block.Insts
+//@   assigns block.Insts, caches
 //@   ensures result != nil && fresh(result) && result.X == x && result.Y == y
 //@   ensures len(block.Insts) == old(len(block.Insts)) + 1 && block.Insts[old(len(block.Insts))] == boxed(result)
 //@   ensures forall(k, 0, old(len(block.Insts)), block.Insts[k] == old(block.Insts[k]))
 //@ func (*Block).NewURem
 //@   props C03
 //@   requires block != nil && x != nil
-//@   assigns block.Insts
+//@   assigns block.Insts, caches
 //@   ensures result != nil && fresh(result) && result.X == x && result.Y == y
 //@   ensures len(block.Insts) == old(len(block.Insts)) + 1 && block.Insts[old(len(block.Insts))] == boxed(result)
 //@   ensures forall(k, 0, old(len(block.Insts)), block.Insts[k] == old(block.Insts[k]))
 //@ func (*Block).NewSRem
 //@   props C03
 //@   requires block != nil && x != nil
-//@   assigns block.Insts
+//@   assigns block.Insts, caches
 //@   ensures result != nil && fresh(result) && result.X == x && result.Y == y
 //@   ensures len(block.Insts) == old(len(block.Insts)) + 1 && block.Insts[old(len(block.Insts))] == boxed(result)
 //@   ensures forall(k, 0, old(len(block.Insts)), block.Insts[k] == old(block.Insts[k]))
 //@ func (*Block).NewFRem
 //@   props C03
 //@   requires block != nil && x != nil
-//@   assigns block.Insts
+//@   assigns block.Insts, caches
 //@   ensures result != nil && fresh(result) && result.X == x && result.Y == y
 //@   ensures len(block.Insts) == old(len(block.Insts)) + 1 && block.Insts[old(len(block.Insts))] == boxed(result)
 //@   ensures forall(k, 0, old(len(block.Insts)), block.Insts[k] == old(block.Insts[k]))
 //@ func (*Block).NewShl
 //@   props C03
 //@   requires block != nil && x != nil
-//@   assigns block.Insts
+//@   assigns block.Insts, caches
 //@   ensures result != nil && fresh(result) && result.X == x && result.Y == y
 //@   ensures len(block.Insts) == old(len(block.Insts)) + 1 && block.Insts[old(len(block.Insts))] == boxed(result)
 //@   ensures forall(k, 0, old(len(block.Insts)), block.Insts[k] == old(block.Insts[k]))
 //@ func (*Block).NewLShr
 //@   props C03
 //@   requires block != nil && x != nil
-//@   assigns block.Insts
+//@   assigns block.Insts, caches
 //@   ensures result != nil && fresh(result) && result.X == x && result.Y == y
 //@   ensures len(block.Insts) == old(len(block.Insts)) + 1 && block.Insts[old(len(block.Insts))] == boxed(result)
 //@   ensures forall(k, 0, old(len(block.Insts)), block.Insts[k] == old(block.Insts[k]))
 //@ func (*Block).NewAShr
 //@   props C03
 //@   requires block != nil && x != nil
-//@   assigns block.Insts
+//@   assigns block.Insts, caches
 //@   ensures result != nil && fresh(result) && result.X == x && result.Y == y
 //@   ensures len(block.Insts) == old(len(block.Insts)) + 1 && block.Insts[old(len(block.Insts))] == boxed(result)
 //@   ensures forall(k, 0, old(len(block.Insts)), block.Insts[k] == old(block.Insts[k]))
 //@ func (*Block).NewAnd
 //@   props C03
 //@   requires block != nil && x != nil
-//@   assigns block.Insts
+//@   assigns block.Insts, caches
 //@   ensures result != nil && fresh(result) && result.X == x && result.Y == y
 //@   ensures len(block.Insts) == old(len(block.Insts)) + 1 && block.Insts[old(len(block.Insts))] == boxed(result)
 //@   ensures forall(k, 0, old(len(block.Insts)), block.Insts[k] == old(block.Insts[k]))
 //@ func (*Block).NewOr
 //@   props C03
 //@   requires block != nil && x != nil
-//@   assigns block.Insts
+//@   assigns block.Insts, caches
 //@   ensures result != nil && fresh(result) && result.X == x && result.Y == y
 //@   ensures len(block.Insts) == old(len(block.Insts)) + 1 && block.Insts[old(len(block.Insts))] == boxed(result)
 //@   ensures forall(k, 0, old(len(block.Insts)), block.Insts[k] == old(block.Insts[k]))
 //@ func (*Block).NewXor
 //@   props C03
 //@   requires block != nil && x != nil
-//@   assigns block.Insts
+//@   assigns block.Insts, caches
 //@   ensures result != nil && fresh(result) && result.X == x && result.Y == y
 //@   ensures len(block.Insts) == old(len(block.Insts)) + 1 && block.Insts[old(len(block.Insts))] == boxed(result)
 //@   ensures forall(k, 0, old(len(block.Insts)), block.Insts[k] == old(block.Insts[k]))
@@ -761,7 +1054,7 @@ package ir
 //@ func (*Block).NewAlloca
 //@   props C03
 //@   requires block != nil
-//@   assigns block.Insts
+//@   assigns block.Insts, caches
 //@   ensures result != nil && fresh(result) && result.ElemType == elemType
 //@   ensures len(block.Insts) == old(len(block.Insts)) + 1 && block.Insts[old(len(block.Insts))] == boxed(result)
 //@   ensures forall(k, 0, old(len(block.Insts)), block.Insts[k] == old(block.Insts[k]))
@@ -782,49 +1075,49 @@ package ir
 //@ func (*Block).NewCmpXchg
 //@   props C03
 //@   requires block != nil && new != nil && types.I1 != nil && types.I1.BitSize == 1
-//@   assigns block.Insts
+//@   assigns block.Insts, caches
 //@   ensures result != nil && fresh(result) && result.Ptr == ptr && result.Cmp == cmp && result.New == new && result.SuccessOrdering == successOrdering && result.FailureOrdering == failureOrdering
 //@   ensures len(block.Insts) == old(len(block.Insts)) + 1 && block.Insts[old(len(block.Insts))] == boxed(result)
 //@   ensures forall(k, 0, old(len(block.Insts)), block.Insts[k] == old(block.Insts[k]))
 //@ func (*Block).NewAtomicRMW
 //@   props C03
 //@   requires block != nil && dst != nil && typeis(vtype(dst), "*types.PointerType")
-//@   assigns block.Insts
+//@   assigns block.Insts, caches
 //@   ensures result != nil && fresh(result) && result.Op == op && result.Dst == dst && result.X == x && result.Ordering == ordering
 //@   ensures len(block.Insts) == old(len(block.Insts)) + 1 && block.Insts[old(len(block.Insts))] == boxed(result)
 //@   ensures forall(k, 0, old(len(block.Insts)), block.Insts[k] == old(block.Insts[k]))
 //@ func (*Block).NewICmp
 //@   props C03
 //@   requires block != nil && x != nil && types.I1 != nil && types.I1.BitSize == 1 && (typeis(vtype(x), "*types.IntType") || typeis(vtype(x), "*types.PointerType") || isVec(vtype(x)))
-//@   assigns block.Insts
+//@   assigns block.Insts, caches
 //@   ensures result != nil && fresh(result) && result.Pred == pred && result.X == x && result.Y == y
 //@   ensures len(block.Insts) == old(len(block.Insts)) + 1 && block.Insts[old(len(block.Insts))] == boxed(result)
 //@   ensures forall(k, 0, old(len(block.Insts)), block.Insts[k] == old(block.Insts[k]))
 //@ func (*Block).NewFCmp
 //@   props C03
 //@   requires block != nil && x != nil && types.I1 != nil && types.I1.BitSize == 1 && (typeis(vtype(x), "*types.FloatType") || isVec(vtype(x)))
-//@   assigns block.Insts
+//@   assigns block.Insts, caches
 //@   ensures result != nil && fresh(result) && result.Pred == pred && result.X == x && result.Y == y
 //@   ensures len(block.Insts) == old(len(block.Insts)) + 1 && block.Insts[old(len(block.Insts))] == boxed(result)
 //@   ensures forall(k, 0, old(len(block.Insts)), block.Insts[k] == old(block.Insts[k]))
 //@ func (*Block).NewPhi
 //@   props C03
 //@   requires block != nil && len(incs) >= 1 && incs[0] != nil && incs[0].X != nil
-//@   assigns block.Insts
+//@   assigns block.Insts, caches
 //@   ensures result != nil && fresh(result) && result.Incs == incs
 //@   ensures len(block.Insts) == old(len(block.Insts)) + 1 && block.Insts[old(len(block.Insts))] == boxed(result)
 //@   ensures forall(k, 0, old(len(block.Insts)), block.Insts[k] == old(block.Insts[k]))
 //@ func (*Block).NewSelect
 //@   props C03
 //@   requires block != nil && valueTrue != nil
-//@   assigns block.Insts
+//@   assigns block.Insts, caches
 //@   ensures result != nil && fresh(result) && result.Cond == cond && result.ValueTrue == valueTrue && result.ValueFalse == valueFalse
 //@   ensures len(block.Insts) == old(len(block.Insts)) + 1 && block.Insts[old(len(block.Insts))] == boxed(result)
 //@   ensures forall(k, 0, old(len(block.Insts)), block.Insts[k] == old(block.Insts[k]))
 //@ func (*Block).NewCall
 //@   props C03
 //@   requires block != nil && callee != nil && isFuncPtr(vtype(callee))
-//@   assigns block.Insts
+//@   assigns block.Insts, caches
 //@   ensures result != nil && fresh(result) && result.Callee == callee && result.Args == args
 //@   ensures len(block.Insts) == old(len(block.Insts)) + 1 && block.Insts[old(len(block.Insts))] == boxed(result)
 //@   ensures forall(k, 0, old(len(block.Insts)), block.Insts[k] == old(block.Insts[k]))
@@ -883,7 +1176,7 @@ package ir
 //@ func (*Block).NewInvoke
 //@   props C03
 //@   requires block != nil && invokee != nil && isFuncPtr(vtype(invokee))
-//@   assigns block.Term
+//@   assigns block.Term, caches
 //@   ensures result != nil && fresh(result) && result.Invokee == invokee && result.Args == args && result.NormalRetTarget == normalRetTarget && result.ExceptionRetTarget == exceptionRetTarget
 //@   ensures block.Term == boxed(result)
 //@ func (*Block).NewResume
@@ -907,28 +1200,28 @@ package ir
 //@ func (*Block).NewFNeg
 //@   props C03
 //@   requires block != nil && x != nil
-//@   assigns block.Insts
+//@   assigns block.Insts, caches
 //@   ensures result != nil && fresh(result) && result.X == x
 //@   ensures len(block.Insts) == old(len(block.Insts)) + 1 && block.Insts[old(len(block.Insts))] == boxed(result)
 //@   ensures forall(k, 0, old(len(block.Insts)), block.Insts[k] == old(block.Insts[k]))
 //@ func (*Block).NewExtractElement
 //@   props C03
 //@   requires block != nil && x != nil && isVec(vtype(x))
-//@   assigns block.Insts
+//@   assigns block.Insts, caches
 //@   ensures result != nil && fresh(result) && result.X == x && result.Index == index
 //@   ensures len(block.Insts) == old(len(block.Insts)) + 1 && block.Insts[old(len(block.Insts))] == boxed(result)
 //@   ensures forall(k, 0, old(len(block.Insts)), block.Insts[k] == old(block.Insts[k]))
 //@ func (*Block).NewInsertElement
 //@   props C03
 //@   requires block != nil && x != nil && isVec(vtype(x))
-//@   assigns block.Insts
+//@   assigns block.Insts, caches
 //@   ensures result != nil && fresh(result) && result.X == x && result.Elem == elem && result.Index == index
 //@   ensures len(block.Insts) == old(len(block.Insts)) + 1 && block.Insts[old(len(block.Insts))] == boxed(result)
 //@   ensures forall(k, 0, old(len(block.Insts)), block.Insts[k] == old(block.Insts[k]))
 //@ func (*Block).NewShuffleVector
 //@   props C03
 //@   requires block != nil && x != nil && mask != nil && isVec(vtype(x)) && isVec(vtype(mask))
-//@   assigns block.Insts
+//@   assigns block.Insts, caches
 //@   ensures result != nil && fresh(result) && result.X == x && result.Y == y && result.Mask == mask
 //@   ensures len(block.Insts) == old(len(block.Insts)) + 1 && block.Insts[old(len(block.Insts))] == boxed(result)
 //@   ensures forall(k, 0, old(len(block.Insts)), block.Insts[k] == old(block.Insts[k]))
@@ -1336,42 +1629,3 @@ package ir
 //@   assigns nothing
 //@   ensures len(result) == 0
 //@ # ==== generated: end ====
-
-//@ # ---------------------------------------------------------------- C17 ---
-//@ # nextID (closure of AssignMetadataIDs): the next number above curID that is not in used.
-//@ func (*Module).AssignMetadataIDs$1
-//@   props C17
-//@   requires used != nil
-//@   assigns curID
-//@   ensures result == curID && curID > old(curID) && !used[result]
-//@   ensures forall(c int, old(curID) < c && c < result ==> used[c])
-//@   loop 0: invariant curID >= old(curID) && forall(c int, old(curID) < c && c <= curID ==> used[c])
-
-//@ # explicit(d): definitions that carried an ID on entry keep it; the others get the smallest unused numbers in order.
-//@ func (*Module).AssignMetadataIDs
-//@   props C17
-//@   requires m != nil
-//@   requires forall(i, 0, len(m.MetadataDefs), m.MetadataDefs[i] != nil && mdid(m.MetadataDefs[i]) >= -1)
-//@   requires forall(i int, j int, 0 <= i && i < j && j < len(m.MetadataDefs) ==> ptrof(m.MetadataDefs[i]) != ptrof(m.MetadataDefs[j]))
-//@   assigns ghost(mdid), ghost(held, addr(m.mu))
-//@   ensures result != nil ==> forall(i, 0, len(m.MetadataDefs), mdid(m.MetadataDefs[i]) == old(mdid(m.MetadataDefs[i])))
-//@   ensures result != nil ==> exists(i int, j int, 0 <= i && i < j && j < len(m.MetadataDefs) && old(mdid(m.MetadataDefs[i])) != -1 && old(mdid(m.MetadataDefs[i])) == old(mdid(m.MetadataDefs[j])))
-//@   ensures result == nil ==> forall(i, 0, len(m.MetadataDefs), old(mdid(m.MetadataDefs[i])) != -1 ==> mdid(m.MetadataDefs[i]) == old(mdid(m.MetadataDefs[i])))
-//@   ensures result == nil ==> forall(i, 0, len(m.MetadataDefs), mdid(m.MetadataDefs[i]) >= 0)
-//@   ensures result == nil ==> forall(i int, j int, 0 <= i && i < j && j < len(m.MetadataDefs) ==> mdid(m.MetadataDefs[i]) != mdid(m.MetadataDefs[j]))
-//@   ensures result == nil ==> forall(i int, c int, 0 <= i && i < len(m.MetadataDefs) && old(mdid(m.MetadataDefs[i])) == -1 && 0 <= c && c < mdid(m.MetadataDefs[i]) ==> exists(j, 0, len(m.MetadataDefs), mdid(m.MetadataDefs[j]) == c && (old(mdid(m.MetadataDefs[j])) != -1 || j < i)))
-//@   loop 0: invariant 0 <= range_i && range_i <= len(m.MetadataDefs) && used != nil
-//@   loop 0: invariant forall(k, 0, len(m.MetadataDefs), mdid(m.MetadataDefs[k]) == old(mdid(m.MetadataDefs[k])))
-//@   loop 0: invariant forall(c int, mapdom(used, c) ==> used[c])
-//@   loop 0: invariant forall(c int, used[c] <==> (c != -1 && exists(k, 0, range_i, mdid(m.MetadataDefs[k]) == c)))
-//@   loop 0: invariant forall(a int, b int, 0 <= a && a < b && b < range_i && mdid(m.MetadataDefs[a]) != -1 ==> mdid(m.MetadataDefs[a]) != mdid(m.MetadataDefs[b]))
-//@   loop 1: invariant 0 <= range_i && range_i <= len(m.MetadataDefs) && used != nil && curID >= -1
-//@   loop 1: invariant forall(c int, used[c] <==> (c != -1 && exists(k, 0, len(m.MetadataDefs), old(mdid(m.MetadataDefs[k])) == c)))
-//@   loop 1: invariant forall(a int, b int, 0 <= a && a < b && b < len(m.MetadataDefs) && old(mdid(m.MetadataDefs[a])) != -1 ==> old(mdid(m.MetadataDefs[a])) != old(mdid(m.MetadataDefs[b])))
-//@   loop 1: invariant forall(k, 0, len(m.MetadataDefs), old(mdid(m.MetadataDefs[k])) != -1 ==> mdid(m.MetadataDefs[k]) == old(mdid(m.MetadataDefs[k])))
-//@   loop 1: invariant forall(k, range_i, len(m.MetadataDefs), old(mdid(m.MetadataDefs[k])) == -1 ==> mdid(m.MetadataDefs[k]) == -1)
-//@   loop 1: invariant forall(k, 0, range_i, old(mdid(m.MetadataDefs[k])) == -1 ==> 0 <= mdid(m.MetadataDefs[k]) && mdid(m.MetadataDefs[k]) <= curID && !used[mdid(m.MetadataDefs[k])])
-//@   loop 1: invariant forall(a int, b int, 0 <= a && a < b && b < range_i && old(mdid(m.MetadataDefs[a])) == -1 && old(mdid(m.MetadataDefs[b])) == -1 ==> mdid(m.MetadataDefs[a]) < mdid(m.MetadataDefs[b]))
-//@   loop 1: invariant forall(c int, 0 <= c && c <= curID ==> used[c] || exists(k, 0, range_i, old(mdid(m.MetadataDefs[k])) == -1 && mdid(m.MetadataDefs[k]) == c))
-//@   loop 1: invariant forall(c int, used[c] ==> exists(j, 0, len(m.MetadataDefs), old(mdid(m.MetadataDefs[j])) != -1 && mdid(m.MetadataDefs[j]) == c))
-//@   loop 1: invariant forall(i int, c int, 0 <= i && i < range_i && old(mdid(m.MetadataDefs[i])) == -1 && 0 <= c && c < mdid(m.MetadataDefs[i]) ==> used[c] || exists(k, 0, i, old(mdid(m.MetadataDefs[k])) == -1 && mdid(m.MetadataDefs[k]) == c))
